@@ -213,7 +213,9 @@ func (b *BlockWise[C]) Do(r *pool.Message, maxSzx SZX, maxMessageSize uint32, do
 
 	expire, ok := r.Context().Deadline()
 	if !ok {
-		expire = time.Now().Add(b.expiration)
+		// The request is needed to pair a block-wise response for as long as this call is waiting
+		// (retransmissions may go on far longer than the transfer timeout); it is removed when the call returns.
+		expire = time.Time{}
 	}
 	_, loaded := b.sendingMessagesCache.LoadOrStore(r.Token().Hash(), cache.NewElement(r, expire, nil))
 	if loaded {
